@@ -65,19 +65,54 @@ def _events_of_stream(res: dict) -> list:
     return ev
 
 
-def run_history(tr: str, script: list, cls: str, text: str, argc: int, worlds: dict, timeout: float = 8.0) -> dict:
-    """Replay one history.  Returns client events, server-side error texts (in order) and the captured records."""
+DEPLOYS = ("warm", "nocache", "two", "evict")
+INTERFERER = "xh"      # method of the interfering stream of the "evict" deployment (no C34 history uses it)
+
+
+def _http_world(tr: str, deploy: str, worlds: dict):
+    key = (tr, deploy)
+    w = worlds.get(key)
+    if w is None:
+        kw: dict = {"max_response_bytes": W.HTTP_CAP} if tr == "httpcap" else {}
+        if deploy == "nocache":
+            kw["call_state_cache_entries"] = 0          # every continuation misses the call-state cache
+        elif deploy == "evict":
+            kw["call_state_cache_entries"] = 1          # two interleaved streams evict each other's entry
+        w = worlds[key] = W.HttpWorld(workers=2 if deploy == "two" else 1, **kw)
+    return w
+
+
+def run_history(tr: str, script: list, cls: str, text: str, argc: int, worlds: dict, timeout: float = 8.0,
+                deploy: str = "warm") -> dict:
+    """Replay one history.  Returns client events, server-side error texts (in order) and the captured records.
+
+    HTTP deployments: "warm" one worker, default cache; "nocache" call_state_cache_entries=0; "two" two workers sharing
+    the token key, requests alternating; "evict" one-entry cache and a second (exchange) stream B interleaved: B makes
+    one exchange turn after every request of the history, so both streams always find the cache holding the other."""
     http = tr != "sock"
     if http:
-        w = worlds.get(tr)
-        if w is None:
-            w = worlds[tr] = W.HttpWorld(**({"max_response_bytes": W.HTTP_CAP} if tr == "httpcap" else {}))
+        w = _http_world(tr, deploy, worlds)
     else:
         w = W.PipeWorld()          # one fresh real connection per history
     _CAP.take()
     del W.TRUTH_ALL[:]
     events: list = []
     errs: list = []                # server-side error messages in order of occurrence
+    other: dict = {"events": [], "n": 0}
+    if http and deploy == "evict":
+        from vgi_rpc.http import http_connect
+
+        cm = http_connect(W.ErrSvc, client=w.inner)     # stream B talks to the same app, unrecorded
+        bpx = cm.__enter__()
+        sess = getattr(bpx, INTERFERER)(cls="ValueError", msg="", argc=1, site="none")
+        other["events"].append(["call", "ok"])
+
+        def after_post():
+            other["n"] += 1
+            sess.exchange(W.AnnotatedBatch(batch=W.pa.RecordBatch.from_pydict({"a": [other["n"]]}, schema=W.INP)))
+            other["events"].append(["tick", "data"])
+
+        w.client.after_post = after_post
 
     def body():
         for c in script:
@@ -106,7 +141,14 @@ def run_history(tr: str, script: list, cls: str, text: str, argc: int, worlds: d
                 e = res["errors"][0]
                 errs.append(("client", e.error_message.removeprefix(str(e.error_type) + ": ")))
 
-    _, hung = W.with_watchdog(body, timeout)
+    try:
+        _, hung = W.with_watchdog(body, timeout)
+    finally:
+        if http:
+            w.client.after_post = None
+    if other["events"]:
+        other["events"].append(["close", "ok"])
+        other["script"] = [{"k": "x", "site": "none", "ops": ["t"] * other["n"] + ["c"]}]
     server_died = []
     if not http:
         if not hung:
@@ -116,7 +158,10 @@ def run_history(tr: str, script: list, cls: str, text: str, argc: int, worlds: d
                 hung = True
             server_died = list(w.died)
     recs = _CAP.take()
-    return {"events": events, "errs": errs, "records": recs, "hung": hung, "server_died": server_died}
+    mine = [r for r in recs if getattr(r, "method", None) != INTERFERER]
+    theirs = [r for r in recs if getattr(r, "method", None) == INTERFERER]
+    return {"events": events, "errs": errs, "records": mine, "hung": hung, "server_died": server_died,
+            "other": dict(other, records=theirs) if other["events"] else None}
 
 
 def project(records: list, errs: list) -> tuple[list, list]:
